@@ -70,7 +70,15 @@ fn main() -> Result<(), String> {
 
     // TODO: should introduce a config object to gather options on the CLI etc.
     let max_drift_ppb = match args.max_drift_rate {
-        Some(rate) => rate * 1000,
+        // The rate is given in ppm and published in ppb as a u32. A value that does not fit must be
+        // refused: wrapping it silently would publish a smaller drift rate than configured.
+        Some(rate) => rate.checked_mul(1000).ok_or_else(|| {
+            format!(
+                "The maximum drift rate of {} ppm is too large: at most {} ppm can be represented.",
+                rate,
+                u32::MAX / 1000
+            )
+        })?,
         None => {
             warn!("Using the default max drift rate of 1PPM, which is likely wrong. \
                   Update chrony configuration and clockbound to a value that matches your hardware.");
